@@ -65,6 +65,9 @@ checks = [
  ("C10", "exhaustive enumeration of conditional skeletons against a reference variant-filter model",
   "Variable types {Integer|NilClass, Integer|String, Integer|String|NilClass, String|Array} x conditions (atoms and && pairs over nil?/!nil?/is_a?/!is_a? on one or two variables) x if/unless x none/else/elsif-else x filler statements (incl. an unrelated inner if and a block) x optional nested conditional, with dbtp probes in every branch and after the conditional; every probe must print the reference set (class level).",
   TRUST + " Probes whose reference set is empty (unreachable branch) are skipped."),
+ ("C17", "exhaustive enumeration of block calls against a reference parameter-resolution model",
+  "Receivers {Array<Integer>, Array<Integer String>, two Hashes, Range, String, Integer} x every configured block method visible on them x 0..declared+1 block variables x do/end and braces x shadowing of an outer variable x a nested inner block (reading / shadowing the outer parameter) with a block-local assignment; probes on every parameter inside, and on the outer variable and the block-local after the block.",
+  TRUST + " Declared block parameter kinds outside {Int,String,Symbol,NilClass,Float,Untyped,Unify,Flatten,Item} are not probed."),
 ]
 m = {
  "version": 1,
